@@ -300,12 +300,15 @@ def rankdiff_peer(rng, st, i):
 # driving the implementation
 
 
-def make_transport(st, role, cfg):
+def make_transport(st, role, cfg, dis=None):
+    """dis: the caller-owned disabled_algorithms dict object to hand to the constructor (shared between
+    several transports in the sequence stream); default: a fresh dict built from cfg["disabled"]."""
     from paramiko.primes import ModulusPack
     from _loop import LoopSocket
     a, b = LoopSocket(), LoopSocket()
     a.link(b)
-    dis = {c: list(v) for c, v in cfg["disabled"].items() if v}
+    if dis is None:
+        dis = {c: list(v) for c, v in cfg["disabled"].items() if v}
     if cfg.get("gss"):
         # no GSS-API library here: the context object is a library primitive, stubbed in this process only
         import paramiko.transport as ptr
@@ -337,7 +340,8 @@ def model_cfg(t, cfg):
     """The model's config record, read from the transport before _send_kex_init runs."""
     return {"kex_raw": "(init_kex true)" if (cfg.get("gss") and cfg["prefs"]["kex"] is None) else None,
             "prefs": {c: list(getattr(t, "_preferred_" + c)) for c in CATS},
-            "disabled": {c: list(t.disabled_algorithms.get(c, [])) for c in CATS},
+            # what the caller configured (not what the transport object holds by now)
+            "disabled": {c: list(cfg["disabled"].get(c, [])) for c in CATS},
             "server_keys": list(t.server_key_dict.keys()),
             "moduli": t._modulus_pack is not None, "strict": bool(t.advertise_strict_kex)}
 
@@ -563,6 +567,195 @@ def swap_lr(lr):
 
 
 # ---------------------------------------------------------------------------------------------
+# sequences on shared configuration objects / alternative entry points / caches
+
+
+def spec_advertised(role, mcfg):
+    """What a KEXINIT must list for a configuration: each configured preference list minus the
+    configured disabled names, in order (kex: no group exchange for a server without moduli, then the
+    markers; host keys: plus certificate variants, servers only what they hold a key for)."""
+    def f(c):
+        return [x for x in mcfg["prefs"][c] if x not in mcfg["disabled"][c]]
+    kex = f("kex")
+    if role == "Server" and not mcfg["moduli"]:
+        kex = [k for k in kex if not k.startswith(GEX)]
+    if role == "Client":
+        kex = kex + ["ext-info-c"]
+    if mcfg["strict"]:
+        kex = kex + ["kex-strict-%s-v00@openssh.com" % ("s" if role == "Server" else "c")]
+    keys = f("keys")
+    keys = keys + [k + CERT for k in keys]
+    if role == "Server":
+        keys = [k for k in keys if k in mcfg["server_keys"]]
+    return [kex, keys, f("ciphers"), f("ciphers"), f("macs"), f("macs"), f("compression"), f("compression")]
+
+
+class _Abort(Exception):
+    pass
+
+
+def apply_op(st, t, op):
+    """One configuration step through a public entry point (or a read that may fill a cache)."""
+    if op[0] == "read":
+        for c in (CATS if op[1] == "all" else [op[1]]):
+            getattr(t, "preferred_" + c)
+        if op[1] in ("all", "keys"):
+            t.preferred_pubkeys
+    elif op[0] == "use_compression":
+        t.use_compression(op[1])
+    elif op[0] == "secopt":
+        attr = {"kex": "kex", "keys": "key_types", "ciphers": "ciphers", "macs": "digests",
+                "compression": "compression"}[op[1]]
+        setattr(t.get_security_options(), attr, list(op[2]))
+    elif op[0] == "connect_hostkey":
+        # Transport.connect(hostkey=...) up to the point where it would start the handshake
+        def stop(*a, **k):
+            raise _Abort()
+        t.start_client = stop
+        try:
+            t.connect(hostkey=st["keys"][op[1]])
+        except _Abort:
+            pass
+        finally:
+            del t.start_client
+
+
+def gen_ops(rng, role, st):
+    ops = []
+    if rng.random() < 0.6:
+        ops.append(["read", "all"])
+    for _ in range(rng.randrange(0, 4)):
+        r = rng.random()
+        if r < 0.3:
+            ops.append(["read", rng.choice(CATS + ["all"])])
+        elif r < 0.55:
+            ops.append(["use_compression", rng.random() < 0.7])
+        elif r < 0.8:
+            c = rng.choice(CATS)
+            pool = [n for n in st["tables"][c] if not n.startswith("gss-")]
+            if c == "keys" and role == "Server":
+                continue
+            ops.append(["secopt", c, rng.sample(pool, rng.randrange(2, min(len(pool), 6) + 1))])
+        elif role == "Client":
+            ops.append(["connect_hostkey", rng.choice(sorted(st["keys"]))])
+        if rng.random() < 0.5:
+            ops.append(["read", rng.choice(CATS + ["all"])])
+    return ops
+
+
+def gen_seq_case(rng, st):
+    from paramiko import Transport
+    role = "Client" if rng.random() < 0.5 else "Server"
+    cfg = gen_rankdiff_cfg(rng, role, st, rng.randrange(8))
+    cfg["moduli"] = rng.random() < 0.6
+    # the caller-owned dict: sometimes with every key present (even empty lists), never empty
+    dis = {c: v for c, v in cfg["disabled"].items() if v or rng.random() < 0.5}
+    if not dis:
+        dis = {rng.choice(CATS): []}
+    warm = None
+    if rng.random() < 0.6:
+        warm = {"role": rng.choice(["Server", "Server", "Client"]), "moduli": rng.random() < 0.3,
+                "parse": rng.random() < 0.5}
+    return {"seq": True, "role": role, "cfg": cfg, "dis": dis, "warmup": warm, "ops": gen_ops(rng, role, st),
+            "rekey": rng.random() < 0.3, "peer": None, "peer2": None}
+
+
+def run_sequence(ctx, st, case, cases_adv, cases_neg):
+    """Several transports from one disabled_algorithms dict, configuration through alternative entry
+    points with cache-filling reads in between, optional second negotiation on the same object; the
+    KEXINIT must be the one of the FINAL configuration (spec_advertised + model `advertised`)."""
+    import copy
+    role, cfg = case["role"], case["cfg"]
+    dis = copy.deepcopy(case["dis"])          # the object the 'caller' owns and hands to every transport
+    dis0 = copy.deepcopy(dis)
+    cfg = dict(cfg, disabled={c: list(dis0.get(c, [])) for c in CATS})
+    socks = []
+    try:
+        w = case.get("warmup")
+        if w:
+            wcfg = plain_cfg(sorted(st["keys"]) if w["role"] == "Server" else [], moduli=w["moduli"])
+            tw, sw = make_transport(st, w["role"], wcfg, dis=dis)
+            socks += list(sw)
+            tw._send_kex_init()
+            if w["parse"]:
+                drive_parse(st, tw, build_kexinit(gen_peer(ctx.rng, st, read_own(tw.local_kex_init), benign=True)))
+        t, s2 = make_transport(st, role, cfg, dis=dis)
+        socks += list(s2)
+        for op in case["ops"]:
+            apply_op(st, t, op)
+        mcfg = model_cfg(t, cfg)
+        rounds = []
+        for rnd, pk in ((0, "peer"), (1, "peer2")):
+            if rnd == 1 and not case.get("rekey"):
+                break
+            t._send_kex_init()
+            own = read_own(t.local_kex_init)
+            if case.get(pk) is None:
+                case[pk] = gen_peer(ctx.rng, st, own, benign=ctx.rng.random() < 0.7)
+            payload = build_kexinit(case[pk])
+            rounds.append((own, read_lists(b"\x14" + payload), drive_parse(st, t, payload)))
+    finally:
+        for x in socks:
+            x.close()
+    kind = "seq%s%s%s" % ("-shared-dict" if case.get("warmup") else "", "-ops" if case["ops"] else "",
+                          "-rekey" if case.get("rekey") else "")
+    ctx.count(("seq", repr(case)), nontrivial=True, kind="%s-%s" % (kind, role.lower()))
+    for op in case["ops"]:
+        k = "seq-op/" + op[0]
+        ctx.dist[k] = ctx.dist.get(k, 0) + 1
+    if dis != dis0:
+        ctx.fail("caller-dict-mutated", "the caller's disabled_algorithms dict was modified by a transport built "
+                 "from it (every later transport sharing it is affected)", case=case, expected=dis0, observed=dis)
+    want = spec_advertised(role, mcfg)
+    for n, (own, peer, outcome) in enumerate(rounds):
+        if own != want:
+            bad = [CAT8[i] for i in range(8) if own[i] != want[i]]
+            ctx.fail("advertised-not-configured-" + CAT8_TYPE[CAT8.index(bad[0])],
+                     "KEXINIT #%d does not list the configured %s algorithms (final preference list minus the "
+                     "configured disabled_algorithms) after the sequence %s%s"
+                     % (n + 1, bad[0], case["ops"], " with a shared disabled_algorithms dict" if case.get("warmup") else ""),
+                     case=case, expected=want, observed=own)
+        check_property(ctx, case, role, mcfg, own, peer, outcome)
+        tally_rankdiff(ctx, role, own, peer, outcome)
+        cases_adv.append(("(CaseAdv %s %s %s)" % (role, coq_cfg(mcfg), coq_ki(own)), [1], case, own))
+        cases_neg.append(("(CaseNeg %s %s %s %s)" % (role, coq_cfg(mcfg), coq_ki(peer), coq_outcome(outcome)), [1],
+                          case, outcome))
+
+
+def seq_targeted(ctx, st, cases_adv, cases_neg):
+    """Fixed sequences: shared dict after a no-moduli server; read-then-reconfigure for every entry point."""
+    from paramiko import Transport
+    kex = list(Transport._preferred_kex)
+    gex_first = [k for k in kex if k.startswith(GEX)] + [k for k in kex if not k.startswith(GEX)]
+    allk = sorted(st["keys"])
+
+    def case(role, ops, dis, warm=None, rekey=False, prefs=None, moduli=True):
+        return {"seq": True, "role": role, "cfg": plain_cfg(allk if role == "Server" else [], moduli=moduli, prefs=prefs),
+                "dis": dis, "warmup": warm, "ops": ops, "rekey": rekey, "peer": None, "peer2": None}
+    warm = {"role": "Server", "moduli": False, "parse": True}
+    some = {"ciphers": ["3des-cbc"]}
+    for role in ("Client", "Server"):
+        run_sequence(ctx, st, case(role, [], dict(some), warm, prefs={"kex": gex_first}), cases_adv, cases_neg)
+        run_sequence(ctx, st, case(role, [], {"kex": [kex[0]]}, warm, rekey=True), cases_adv, cases_neg)
+        for first in ([["read", "all"]], [["read", "compression"], ["read", "keys"]], []):
+            for flag in (True, False):
+                run_sequence(ctx, st, case(role, first + [["use_compression", flag]], dict(some)), cases_adv, cases_neg)
+                run_sequence(ctx, st, case(role, first + [["use_compression", flag], ["read", "all"],
+                                                          ["use_compression", not flag]], dict(some), rekey=True),
+                             cases_adv, cases_neg)
+            for c in CATS:
+                if c == "keys" and role == "Server":
+                    continue
+                pool = [n for n in st["tables"][c] if not n.startswith("gss-")]
+                run_sequence(ctx, st, case(role, first + [["secopt", c, pool[::-1][:4]]], dict(some)), cases_adv, cases_neg)
+        # no-moduli server negotiating twice on the same object
+        run_sequence(ctx, st, case(role, [["read", "kex"]], dict(some), rekey=True, moduli=False), cases_adv, cases_neg)
+    for k in allk:
+        for first in ([["read", "all"]], [["read", "keys"]], []):
+            run_sequence(ctx, st, case("Client", first + [["connect_hostkey", k]], dict(some)), cases_adv, cases_neg)
+
+
+# ---------------------------------------------------------------------------------------------
 # real loopback handshakes
 
 
@@ -765,7 +958,10 @@ def run(ctx):
                 "table names, names of our own list reordered, unknown names, duplicates, empty lists, 0-3 markers "
                 "at random positions (also in non-kex lists), one sabotaged category in 30%; a dedicated stream per "
                 "role and category with >= 2 common algorithms ranked differently by the two sides and the other "
-                "categories compatible (counts: ranked-differently/<role>/<cat>); plus paired real "
+                "categories compatible (counts: ranked-differently/<role>/<cat>); sequences: several transports built "
+                "from one caller-owned disabled_algorithms dict (after a no-moduli server), configuration through "
+                "use_compression / connect(hostkey=) / SecurityOptions with preferred_* reads in between, second "
+                "negotiation on the same object - KEXINIT compared with the final configuration; plus paired real "
                 "transports and real handshakes; a case is non-trivial when distinct and either negotiation "
                 "succeeds or the peer lists something")
     ctx.trusted += ["model coq/Model/C05.v is hand-written; tied to paramiko/transport.py by the generated tuples/"
@@ -803,6 +999,10 @@ def run(ctx):
             if reached < 4:
                 ctx.disagree("generator failed to produce >= 4 reached ranked-differently cases",
                              case={"role": role, "category": CAT8[i], "reached": reached})
+    # second use / other entry points / caches: sequences on shared configuration objects
+    seq_targeted(ctx, st, cases_adv, cases_neg)
+    for _ in range(60 * scale):
+        run_sequence(ctx, st, gen_seq_case(rng, st), cases_adv, cases_neg)
     for _ in range(100 * scale):
         run_pair(ctx, st, gen_cfg(rng, "Client", st), gen_cfg(rng, "Server", st), cases_adv, cases_neg)
     safe_flush(ctx, cases_adv, cases_neg)
@@ -822,6 +1022,8 @@ def replay(ctx, rep):
     if case.get("handshake"):
         check_handshake(ctx, st, case["client_cfg"], case["server_cfg"])
         ctx.count(("replay", repr(case)))
+    elif case.get("seq"):
+        run_sequence(ctx, st, case, cases_adv, cases_neg)
     elif case.get("pair"):
         run_pair(ctx, st, case["client_cfg"], case["server_cfg"], cases_adv, cases_neg)
         ctx.count(("replay", repr(case)))
